@@ -27,7 +27,10 @@ def classify(table=TABLE):
     with_sld, bc_only, none = [], [], []
     for a in base_atoms(table):
         n = a.neutron
-        if n.has_sld():
+        # classified from the data, not from has_sld(): an atom has an sld when it has a tabulated b_c and its
+        # element has a density (a b_c of 0, as for natural Sm with its energy-dependent table, still counts)
+        el = getattr(a, "element", a)
+        if n.b_c is not None and el.density is not None and el.mass:
             with_sld.append(a)
         elif n.b_c is not None:
             bc_only.append(a)
